@@ -43,6 +43,9 @@ MUTATORS = [
     ("error-inside-comptime-value", ["okd :: comptime { 2 + 2 };", "bad21 :: comptime { bad21x : bool = 3; 7 };"], True),
     ("switch-argument-after-switch", ["bado2 : ?i32 = 5;", "switch badsv in bado2 { nil => {}, i32 => {}, };", "bad22 : i32 = badsv;"], True),
     ("block-local-after-block", ["{ bad23 : i32 = 1; };", "bad23b : i32 = bad23 + 1;"], True),
+    ("error-inside-comptime-array-size", ["bad24 : [comptime { b24 : usize = true; 3 }]i32;"], True),
+    # accepted with a warning only: no error, so nothing may be flagged unsafe and the build has to succeed
+    ("warning-only-break-in-defer", ["defer { break; };"], False),
     ("syntax", ["bads : = ;"], False),
 ]
 
@@ -93,7 +96,7 @@ def observe(scratch, src):
 
 def judge(src, mut, r):
     name = MUTATORS[mut][0] if mut >= 0 else "none"
-    replay = {"src": src, "mutator": mut}
+    replay = {"src": src, "mutator": mut, "injected": True}
     tail = r["text"][-1500:]
     has_err = bool(r["errors"])
     if r["crash"] and not has_err:
@@ -123,7 +126,18 @@ def judge(src, mut, r):
     return "ok"
 
 
+# mutators behind which a listed open finding sits (key prefix): left out of the search while it is listed
+MUTATOR_FINDINGS = {
+    "error-inside-comptime-array-size": "crash:crates/hir_ty/src/globals.rs:",
+    "warning-only-break-in-defer": "crash:crates/capy/src/main.rs:",
+}
+
+
 def check(case, stats, scratch, profile):
+    if case["mutator"] >= 0 and not case.get("force"):
+        pref = MUTATOR_FINDINGS.get(MUTATORS[case["mutator"]][0])
+        if pref and any(f.get("status") == "open" and f["key"].startswith(pref) for f in core.load_findings("C07")):
+            case = dict(case, mutator=-1)
     src = mutate(case["src"], case["mutator"])
     r = observe(scratch, src)
     if r is None:
@@ -152,7 +166,7 @@ def replay_payload(payload, scratch):
     return None
 
 
-RULE = ("generated well-typed programs (C01 generator) and twins with exactly one breaking mutation out of 24 (annotation type, struct mismatch, assignment to `::`, write through `^`, "
+RULE = ("generated well-typed programs (C01 generator) and twins with exactly one mutation out of 26 (24 breaking ones, one more behind a listed finding, one that only causes a warning) (annotation type, struct mismatch, assignment to `::`, write through `^`, "
         "`:=` local as type / array size, out-of-scope name, missing struct member, extra / missing call argument, wrong return type, non-exhaustive switch, mismatched operands, "
         "deref / index / call of a non-pointer / non-array / non-function, literal too big, undefined type, syntax slip), built with --verbose-types local. "
         "Non-trivial = a mutated twin that is rejected while its unmutated program is accepted; distinct by program text.")
